@@ -142,7 +142,7 @@ var Check = &sqrun.Check{ID: "C01", QuickBudget: 90, ThoroughBudget: 1500,
 		}
 		// (b2) multi-event streams: sequences of 3-4 event templates (surplus blank lines, CRLF, comments, inherited
 		// IDs), every single cut and every pair of cuts - what a splitter that keeps state between reads must survive
-		tmpl := []string{"id:1\n\n", "\nid:2\ndata:x\n\n", "data:y\r\n\r\n", ":c\n\n", "\r\nevent:t\ndata:z\n\n", "data\n\n", "id:3\x00\ndata:w\n\n", "id:4\x01\x7f\ndata:v\n\n"}
+		tmpl := []string{"id:1\n\n", "\nid:2\ndata:x\n\n", "data:y\r\n\r\n", ":c\n\n", "\r\nevent:t\ndata:z\n\n", "data\n\n", "id:3\x00\ndata:w\n\n", "id:4\x01\x7f\ndata:v\n\n", "event:  u \t\ndata:q\n\n"}
 		ne := 3
 		if c.Thorough {
 			ne = 4
@@ -182,7 +182,7 @@ var Check = &sqrun.Check{ID: "C01", QuickBudget: 90, ThoroughBudget: 1500,
 		cov := ev.Coverage{
 			"evaluations": k.st.cases.Load(), "distinct_nontrivial": k.st.nontrivial.Load(), "exhaustive": exhaustive,
 			"streams": streams, "samples": samples,
-			"rule": fmt.Sprintf("(a) every string of <= %d tokens over %q, (b) every sequence of <= %d lines over %q x terminators {LF, CR, CRLF}, last line terminated or not, (b2) every sequence of 3 (thorough 4) of 7 event templates (surplus blank lines, CRLF events, comment-only blocks, inherited IDs, an ID with NUL next to data, an ID with other control characters) under every single cut and every pair of cuts, (d) one Connection across a reconnection: every first stream of <= 3 lines over an ID-centred alphabet ending cleanly / in mid-line / with a read error, followed by each of 6 second streams (the ID of an event that was never dispatched must not survive), (c) a size family around 4096 / 65536 bytes and a 60-event stream with inherited IDs; each stream x both entry points (sse.Read, Connection.Connect over a scripted RoundTripper; in the quick tier the Connection gets the whole / byte-at-a-time / single-cut segmentations only) x segmentations (all 2^(n-1) cut sets for n <= %d bytes, else whole / byte-at-a-time / every single cut / every pair of cuts for n <= %d; EOF with the last chunk or separately; for the whole / byte-at-a-time / last-byte-alone segmentations also ending in a read error of its own kind or one that wraps io.EOF, where nothing pending may be dispatched and the error must be reported as itself) x every early-stop position. A case is a distinct (stream, segmentation, entry, stop); non-trivial = the reference yields at least one event or an unexpected end.", L, Tokens, nl, Lines, allBelow, pairBelow),
+			"rule": fmt.Sprintf("(a) every string of <= %d tokens over %q, (b) every sequence of <= %d lines over %q x terminators {LF, CR, CRLF}, last line terminated or not, (b2) every sequence of 3 (thorough 4) of 9 event templates (surplus blank lines, CRLF events, comment-only blocks, inherited IDs, an ID with NUL next to data, an ID with other control characters, a type with surrounding blanks) under every single cut and every pair of cuts, (d) one Connection across a reconnection: every first stream of <= 3 lines over an ID-centred alphabet ending cleanly / in mid-line / with a read error, followed by each of 6 second streams (the ID of an event that was never dispatched must not survive), (c) a size family around 4096 / 65536 bytes and a 60-event stream with inherited IDs; each stream x both entry points (sse.Read, Connection.Connect over a scripted RoundTripper; in the quick tier the Connection gets the whole / byte-at-a-time / single-cut segmentations only) x segmentations (all 2^(n-1) cut sets for n <= %d bytes, else whole / byte-at-a-time / every single cut / every pair of cuts for n <= %d; EOF with the last chunk or separately; for the whole / byte-at-a-time / last-byte-alone segmentations also ending in a read error of its own kind or one that wraps io.EOF, where nothing pending may be dispatched and the error must be reported as itself) x every early-stop position. A case is a distinct (stream, segmentation, entry, stop); non-trivial = the reference yields at least one event or an unexpected end.", L, Tokens, nl, Lines, allBelow, pairBelow),
 		}
 		return &sqrun.Outcome{Level: "exploration", Coverage: cov, Assumptions: []string{
 			"reference = transcription of the WHATWG parse/interpret steps over bytes with the three adaptations; values compared as raw bytes (no U+FFFD replacement demanded)",
